@@ -277,6 +277,7 @@ func runPath(x *X, m Module, a *Chain, initHeight, queryHeight int64, tag string
 		}
 		x.Steps = append(x.Steps, fmt.Sprintf("%s/%s: validate=%v import ok, second export %s first", name, tag, verr, eqWord(canon(raw), canon(raw2))))
 	}
+	x.Scratch["importOK"] = kind == "ok" // Cross may ask B only when the import succeeded
 	cross = m.Cross(x, a, b)
 	args := []string{sA, gA, lib.B(verr == nil), lib.Z(int64(imp)), sB, gB}
 	if cross != "" {
